@@ -1,7 +1,8 @@
 (* C09 -- property theorems only: statement + exact + Print Assumptions. *)
 From Coq Require Import List ZArith.
-From LJT Require Import model.Suspend model.SuspendMarker proofs.SuspendProofs proofs.SuspendWriteProofs
-  proofs.SuspendMarkerProofs proofs.SuspendTheorems.
+From LJT Require Import model.Suspend model.SuspendMarker model.SuspendHuff model.SuspendEnc
+  proofs.SuspendProofs proofs.SuspendWriteProofs proofs.SuspendMarkerProofs proofs.SuspendTheorems
+  proofs.SuspendHuffProofs proofs.SuspendScanTheorems proofs.SuspendEncProofs.
 Import ListNotations.
 
 (* (1) generic: for a resumable unit parser every partition of the byte string gives the
@@ -49,6 +50,31 @@ Theorem C09_save_marker_chunking :
 Proof. exact save_marker_chunking. Qed.
 Print Assumptions C09_save_marker_chunking.
 
+(* (2') the Huffman decode_mcu unit (restart processing, bit reader with unstuffing and prefetch,
+   state committed at MCU end) is resumable, hence the decoded scan does not depend on the chunking *)
+Theorem C09_huffman_unit_resumable : forall bls, resumable (mcu_unit bls) mcu_slack.
+Proof. exact mcu_unit_resumable. Qed.
+Print Assumptions C09_huffman_unit_resumable.
+
+Theorem C09_scan_chunking_irrelevant : forall bls cs s, run_scan bls cs s = run_scan bls [concat cs] s.
+Proof. exact scan_chunking_irrelevant. Qed.
+Print Assumptions C09_scan_chunking_irrelevant.
+
+(* (4) encoder: for every block coder whose blocks fit the 512-byte local buffer, every destination
+   capacity n >= 1, every refusal schedule orc and every schedule vol of voluntary flushes, the bytes
+   written are those of the destination-free coder, and the entropy state too *)
+Theorem C09_output_buffer_irrelevant :
+  forall (wstate block : Type) (encode_block : wstate -> block -> list byte * wstate)
+         (flush_bits : wstate -> list byte * wstate) (reset_dc : wstate -> wstate),
+  (forall w b, length (fst (encode_block w b)) < BUFSIZE) ->
+  (forall w, length (fst (flush_bits w)) < BUFSIZE) ->
+  forall ri ms e n orc vol, 1 <= n ->
+  exists d', encode_all wstate block encode_block flush_bits reset_dc true ri ms e (empty_dest n) orc vol
+               = EDone (snd (stream_pure wstate block encode_block flush_bits reset_dc ri ms e)) d' /\
+             total d' = fst (stream_pure wstate block encode_block flush_bits reset_dc ri ms e).
+Proof. exact output_buffer_irrelevant. Qed.
+Print Assumptions C09_output_buffer_irrelevant.
+
 Example C09_ex_every_split :
   forallb (fun cs => match outcome_ri (run_markers cs ex_init) with Some (7, 2)%Z => true | _ => false end)
           (all_splits ex_stream ++ [singletons ex_stream; [ex_stream]; [[]; ex_stream; []]]) = true.
@@ -67,3 +93,30 @@ Example C09_ex_dirty_state :
   match run_markers [[255; 216; 255; 192; 0; 11; 8]%Z] ex_init with
   | Susp s _ _ => cget G_SC S_PREC (cells s) | _ => 0%Z end = 8%Z.
 Proof. exact ex_dirty_state. Qed.
+
+Example C09_ex_scan_every_split :
+  forallb (fun cs => if list_eq_dec (list_eq_dec Z.eq_dec)
+                          (scan_summary (run_scan [(0%nat, ex_dc, ex_ac)] cs (hinit 1 0 2))) [[3; 1; 0]; [3; 0; 0]]%Z
+                     then true else false)
+          (all_splits ex_scan ++ [singletons ex_scan; [[]; ex_scan]]) = true.
+Proof. exact ex_scan_every_split. Qed.
+
+Example C09_ex_scan_rst_every_split :
+  forallb (fun cs => if list_eq_dec (list_eq_dec Z.eq_dec)
+                          (scan_summary (run_scan [(0%nat, ex_dc, ex_ac)] cs (hinit 1 1 2))) [[3; 1; 0]; [0; 0; 0]]%Z
+                     then true else false)
+          (all_splits ex_scan_rst ++ [singletons ex_scan_rst]) = true.
+Proof. exact ex_scan_rst_every_split. Qed.
+
+Example C09_ex_enc_all_caps :
+  forallb (fun n => forallb (fun orc => forallb (fun ri =>
+      match toy_run true n ri ex_mcus orc [false; true; false; true] with
+      | Some out => if list_eq_dec Z.eq_dec out (toy_pure ri ex_mcus) then true else false
+      | None => false end) [0; 1; 2; 3]) ex_orcs) (seq 1 24) = true.
+Proof. exact ex_enc_all_caps. Qed.
+
+(* a manager that refuses after having accepted a buffer within the same MCU duplicates data:
+   the documented side condition is necessary *)
+Example C09_ex_enc_unsafe_manager_duplicates :
+  toy_run false 2 0 [[[1; 2; 3; 4; 5; 6]%Z]] [false; true] [] <> Some (toy_pure 0 [[[1; 2; 3; 4; 5; 6]%Z]]).
+Proof. exact ex_enc_unsafe_manager_duplicates. Qed.
